@@ -250,3 +250,18 @@ PROPERTIES["C07"] = {
         {"test": "TestC07SendPath", "quick": 1000, "thorough": 50000},
     ],
 }
+
+PROPERTIES["C10"] = {
+    "level": "exploration",
+    "rule": "The Msg RPC surface is ENUMERATED at run time from the protobuf registry (every service with the cosmos.msg.v1.service option in a "
+            "file of package noble.orbiter.*, each method's input type instantiated by reflection, its signer field found through "
+            "cosmos.msg.v1.signer), so a later RPC is included without touching the harness. rapid draws (RPC, signer, body): signers that do "
+            "not denote the authority (users, module accounts incl. orbiter and gov, empty, whitespace, garbage, other prefix over the "
+            "authority bytes, truncated authority, authority with padding) x bodies (hand-written VALID bodies of the eight known messages, so "
+            "the signer is the only reason to fail, and reflection-filled bodies for any message). Oracle: error and unchanged digest of every "
+            "store; signed by the authority with a valid body the same message succeeds and changes state. Every RPC x signer-class cell must be "
+            "hit. Non-trivial = a case with a valid body; distinct by (RPC, signer, body).",
+    "assumptions": COMMON_ASSUMPTIONS + ["the positive half (authority + valid body succeeds) covers the known messages; ReplaceDepositForBurn's positive half is C05's real replacement",
+                                         "the authority written in another bech32 spelling is a don't-care"],
+    "tests": [{"test": "TestC10Authority", "quick": 4000, "thorough": 300000}],
+}
